@@ -278,6 +278,14 @@ func init() {
 		return x.tb.Ite(x.tb.Eq(sign, zero), inf, x.tb.Ite(x.tb.Slt(zero, sign), pos, ng))
 	})
 	reg("math.Trunc", func(x *Exec, fr *frame, args []value) value { return x.tb.fun(OFRoundRTZ, args[0].(*Term)) })
+	// assembly kernels of package math on amd64: redirected to the portable Go bodies of the same package
+	// (math.max/min/floor/ceil/trunc/hypot are the reference implementations the assembly is tested against)
+	for arch, pure := range map[string]string{"archMax": "max", "archMin": "min", "archFloor": "floor", "archCeil": "ceil", "archTrunc": "trunc", "archHypot": "hypot"} {
+		pure := pure
+		reg("math."+arch, func(x *Exec, fr *frame, args []value) value {
+			return x.callSSA(fr, token.NoPos, x.P.prog.ImportedPackage("math").Func(pure), args, nil)
+		})
+	}
 
 	reg("os.ReadFile", func(x *Exec, fr *frame, args []value) value {
 		p, ok := args[0].(strVal).concrete()
